@@ -1,5 +1,10 @@
-(* Cutting (Value.MarshalTo): projection of a value described by one descriptor onto another.
-   Type shapes are trees over a table of struct definitions (so that "the same descriptor" is expressible). *)
+(* Cutting (thrift/generic Value.MarshalTo): projection of a value described by one descriptor onto another.
+   Type shapes are trees over a table of struct definitions (so that "the same descriptor" is expressible).
+   Two levels:
+     project  spec level, on the decoded value (recursive walk; the raw-copy shortcut is a parameter [pe])
+     cut      algorithm level, on bytes: mirrors marshalTo (ReadFieldBegin / Skip / raw copy of read.Buf[e:s] /
+              handleUnsets) including the shortcut on pointer-equal sub-descriptors.
+   Model only - proofs are in proofs/ThriftCutProofs.v. *)
 From Coq Require Import ZArith List Bool.
 From DG Require Import ProtoWireRef ThriftWire CaseFormat.
 Import ListNotations.
@@ -12,6 +17,7 @@ Definition defs : Type := list (list fdesc).
 Definition type_code (t : ty) : Z :=
   match t with TScalar c => c | TStruct _ => T_STRUCT | TList _ => T_LIST | TSet _ => T_SET | TMap _ _ => T_MAP end.
 
+(* BinaryProtocol.WriteEmpty: LIST and SET both write a list header; the field header carries the declared type *)
 Definition zero_of (t : ty) : option tval :=
   match t with
   | TScalar c =>
@@ -20,7 +26,7 @@ Definition zero_of (t : ty) : option tval :=
     else if c =? T_STRING then Some (VString []) else None
   | TStruct _ => Some (VStruct [])
   | TList e => Some (VList (type_code e) [])
-  | TSet e => Some (VList (type_code e) [])       (* WriteEmpty writes a list header for both *)
+  | TSet e => Some (VSet (type_code e) [])
   | TMap k e => Some (VMap (type_code k) (type_code e) [])
   end.
 
@@ -29,10 +35,12 @@ Definition fld_id (f : fdesc) : Z := fst (fst f).
 Definition fld_req (f : fdesc) : Z := snd (fst f).
 Definition fld_ty (f : fdesc) : ty := snd f.
 Definition find_fld (id : Z) (fs : list fdesc) : option fdesc := find (fun f => fld_id f =? id) fs.
+Definition mem_id (id : Z) (l : list Z) : bool := existsb (Z.eqb id) l.
 
-Record cut_opts := { o_disallow_unknown : bool; o_not_check_req : bool; o_write_default : bool; o_shared : bool }.
+(* o_opt_bitmap: the target descriptor was parsed with SetOptionalBitmap (optional fields are tracked in the bitmap too) *)
+Record cut_opts := { o_disallow_unknown : bool; o_not_check_req : bool; o_write_default : bool; o_opt_bitmap : bool }.
 
-(* errors: 1 unknown field, 2 type mismatch, 3 missing required, 4 malformed descriptor / other *)
+(* errors: 1 unknown field, 2 type mismatch, 3 missing required, 4 read error / malformed descriptor / other *)
 Inductive cres (A : Type) := COk (a : A) | CErr (code : Z).
 Arguments COk {A} _. Arguments CErr {A} _.
 
@@ -40,16 +48,28 @@ Definition insert_sorted_fld (f : fdesc) (l : list fdesc) : list fdesc :=
   (fix go (l : list fdesc) := match l with [] => [f] | g :: r => if fld_id f <? fld_id g then f :: l else g :: go r end) l.
 Definition sort_flds (l : list fdesc) : list fdesc := fold_right insert_sorted_fld [] l.
 
+(* "the same descriptor" as the Go code sees it (pointer equality): builtin scalar descriptors are global singletons;
+   a struct descriptor is shared inside one parse (cache by name); list/set/map descriptors are allocated per occurrence *)
+Definition pe_parse (same_parse : bool) (a b : ty) : bool :=
+  match a, b with
+  | TScalar x, TScalar y => x =? y
+  | TStruct x, TStruct y => same_parse && (x =? y)
+  | _, _ => false
+  end.
+Definition pe_none (a b : ty) : bool := false.
+
 Section Cut.
   Variable d : defs.
   Variable o : cut_opts.
+  Variable pe : ty -> ty -> bool.      (* pointer equality of two sub-descriptors *)
 
-  (* fields owed at STOP: target fields (ascending id) that are required/default and were not written *)
+  (* RequiresBitmap.CheckRequires at STOP (handleUnsets): target fields in ascending id order that are still owed *)
+  Definition tracked (f : fdesc) : bool := negb (fld_req f =? 2) || o_opt_bitmap o.
   Fixpoint owed (tfs : list fdesc) (written : list Z) : cres (list (Z * tval)) :=
     match tfs with
     | [] => COk []
     | f :: r =>
-      if existsb (Z.eqb (fld_id f)) written || (fld_req f =? 2) then owed r written
+      if mem_id (fld_id f) written || negb (tracked f) then owed r written
       else if fld_req f =? 1 then CErr 3
       else if negb (o_write_default o) then owed r written
       else match zero_of (fld_ty f), owed r written with
@@ -59,64 +79,343 @@ Section Cut.
            end
     end.
 
+  Definition finish_struct (tfs : list fdesc) (kept : list (Z * tval)) : cres tval :=
+    if o_not_check_req o then COk (VStruct kept)
+    else match owed (sort_flds tfs) (map fst kept) with
+         | COk extra => COk (VStruct (kept ++ extra))
+         | CErr c => CErr c
+         end.
+
+  (* ---------------- spec level ---------------- *)
+  Section PStep.
+    Variable rec : ty -> ty -> tval -> cres tval.
+    Fixpoint proj_fields (ffs tfs : list fdesc) (fs : list (Z * tval)) : cres (list (Z * tval)) :=
+      match fs with
+      | [] => COk []
+      | (id, x) :: r =>
+        match find_fld id ffs with
+        | None => if o_disallow_unknown o then CErr 1 else proj_fields ffs tfs r
+        | Some ff =>
+          if negb (type_of x =? type_code (fld_ty ff)) then CErr 2 else
+          match find_fld id tfs with
+          | None => proj_fields ffs tfs r
+          | Some tf =>
+            match rec (fld_ty ff) (fld_ty tf) x with
+            | CErr c => CErr c
+            | COk x' => match proj_fields ffs tfs r with COk l => COk ((id, x') :: l) | CErr c => CErr c end
+            end
+          end
+        end
+      end.
+    Fixpoint proj_elems (fe te : ty) (es : list tval) : cres (list tval) :=
+      match es with
+      | [] => COk []
+      | x :: r =>
+        match rec fe te x with
+        | CErr c => CErr c
+        | COk x' => match proj_elems fe te r with COk l => COk (x' :: l) | CErr c => CErr c end
+        end
+      end.
+    Fixpoint proj_pairs (fk tk fe te : ty) (es : list (tval * tval)) : cres (list (tval * tval)) :=
+      match es with
+      | [] => COk []
+      | (k, x) :: r =>
+        match rec fk tk k with
+        | CErr c => CErr c
+        | COk k' =>
+          match rec fe te x with
+          | CErr c => CErr c
+          | COk x' => match proj_pairs fk tk fe te r with COk l => COk ((k', x') :: l) | CErr c => CErr c end
+          end
+        end
+      end.
+  End PStep.
+
+  Definition elem_ty (t : ty) : option ty := match t with TList e | TSet e => Some e | _ => None end.
+
   Fixpoint project (fuel : nat) (from to : ty) (v : tval) {struct fuel} : cres tval :=
     match fuel with
     | O => CErr 4
-    | S fuel' =>
-      match to, from, v with
-      | TStruct b, TStruct a, VStruct fs =>
-        if o_shared o && (a =? b) then COk v else
-        match struct_def d a, struct_def d b with
-        | Some ffs, Some tfs =>
-          (fix walk (fs : list (Z * tval)) (acc : list (Z * tval)) (written : list Z) : cres tval :=
-             match fs with
-             | [] =>
-               if o_not_check_req o then COk (VStruct (rev acc))
-               else match owed (sort_flds tfs) written with
-                    | COk extra => COk (VStruct (rev acc ++ extra))
-                    | CErr c => CErr c
-                    end
-             | (id, x) :: r =>
-               match find_fld id ffs with
-               | None => if o_disallow_unknown o then CErr 1 else walk r acc written
-               | Some ff =>
-                 if negb (type_of x =? type_code (fld_ty ff)) then CErr 2 else
-                 match find_fld id tfs with
-                 | None => walk r acc written
-                 | Some tf =>
-                   match project fuel' (fld_ty ff) (fld_ty tf) x with
-                   | COk x' => walk r ((id, x') :: acc) (id :: written)
-                   | CErr c => CErr c
+    | S f =>
+      match to with
+      | TStruct b =>
+        match from, v with
+        | TStruct a, VStruct fs =>
+          if pe from to then COk v else
+          match struct_def d a, struct_def d b with
+          | Some ffs, Some tfs =>
+            match proj_fields (project f) ffs tfs fs with
+            | CErr c => CErr c
+            | COk kept => finish_struct tfs kept
+            end
+          | _, _ => CErr 4
+          end
+        | _, _ => CErr 2
+        end
+      | TList te | TSet te =>
+        match elem_ty from with
+        | None => CErr 2
+        | Some fe =>
+          if pe fe te then (if type_code from =? type_code to then COk v else CErr 2) else
+          match v with
+          | VList et es => match proj_elems (project f) fe te es with COk l => COk (VList et l) | CErr c => CErr c end
+          | VSet et es => match proj_elems (project f) fe te es with COk l => COk (VSet et l) | CErr c => CErr c end
+          | _ => CErr 2
+          end
+        end
+      | TMap tk te =>
+        match from with
+        | TMap fk fe =>
+          if pe fe te && pe fk tk then COk v else
+          match v with
+          | VMap kt vt es => match proj_pairs (project f) fk tk fe te es with COk l => COk (VMap kt vt l) | CErr c => CErr c end
+          | _ => CErr 2
+          end
+        | _ => CErr 2
+        end
+      | TScalar tc => if type_code from =? tc then COk v else CErr 2
+      end
+    end.
+
+  (* ---------------- algorithm level (bytes) ---------------- *)
+  (* [quirk]: the unrepaired marshalTo returns from `case STRUCT: if from == to { return nil }` without copying and
+     without advancing the reader (finding 1101); quirk = false is the repaired behaviour (raw copy). *)
+  Variable quirk : bool.
+
+  Definition type_valid_b (t : Z) : bool := (t =? 0) || (t =? 1) || valid_type t || (t =? 16) || (t =? 17).
+
+  (* skip_val: copy read.Buf[e:s] where s-e is what Skip advances *)
+  Definition raw_copy (t : Z) (bs : list Z) : cres (list Z * list Z) :=
+    match skip_go t bs with
+    | Some r => COk (firstn (length bs - length r) bs, r)
+    | None => CErr 4
+    end.
+
+  Definition skip_or_err {A} (t : Z) (bs : list Z) (k : list Z -> cres A) : cres A :=
+    match skip_go t bs with Some r => k r | None => CErr 4 end.
+
+  Section CStep.
+    Variable rec : ty -> ty -> list Z -> cres (list Z * list Z).
+    (* the struct loop: result = (output bytes without the STOP, rest after the STOP, ids written) *)
+    Fixpoint cut_fields (fuel : nat) (ffs tfs : list fdesc) (bs : list Z) : cres (list Z * list Z * list Z) :=
+      match fuel with
+      | O => CErr 4
+      | S f =>
+        match bs with
+        | [] => CErr 4
+        | t :: r =>
+          if negb (type_valid_b t) then CErr 4
+          else if t =? 0 then COk ([], r, [])
+          else match take 2 r with
+               | None => CErr 4
+               | Some (idb, r2) =>
+                 let id := dec_int idb in
+                 match find_fld id ffs with
+                 | None => if o_disallow_unknown o then CErr 1 else skip_or_err t r2 (cut_fields f ffs tfs)
+                 | Some ff =>
+                   if negb (t =? type_code (fld_ty ff)) then CErr 2 else
+                   match find_fld id tfs with
+                   | None => skip_or_err t r2 (cut_fields f ffs tfs)
+                   | Some tf =>
+                     match rec (fld_ty ff) (fld_ty tf) r2 with
+                     | CErr c => CErr c
+                     | COk (o1, r3) =>
+                       match cut_fields f ffs tfs r3 with
+                       | CErr c => CErr c
+                       | COk (o2, r4, w) => COk (t :: idb ++ o1 ++ o2, r4, id :: w)
+                       end
+                     end
                    end
                  end
                end
-             end) fs [] []
-        | _, _ => CErr 4
         end
-      | TList te, TList fe, VList et es | TList te, TSet fe, VList et es | TSet te, TList fe, VList et es | TSet te, TSet fe, VList et es =>
-        (fix go (es : list tval) (acc : list tval) : cres tval :=
-           match es with
-           | [] => COk (VList et (rev acc))
-           | x :: r => match project fuel' fe te x with COk x' => go r (x' :: acc) | CErr c => CErr c end
-           end) es []
-      | TList te, TList fe, VSet et es | TList te, TSet fe, VSet et es | TSet te, TList fe, VSet et es | TSet te, TSet fe, VSet et es =>
-        (fix go (es : list tval) (acc : list tval) : cres tval :=
-           match es with
-           | [] => COk (VSet et (rev acc))
-           | x :: r => match project fuel' fe te x with COk x' => go r (x' :: acc) | CErr c => CErr c end
-           end) es []
-      | TMap tk te, TMap fk fe, VMap kt vt es =>
-        (fix go (es : list (tval * tval)) (acc : list (tval * tval)) : cres tval :=
-           match es with
-           | [] => COk (VMap kt vt (rev acc))
-           | (k, x) :: r =>
-             match project fuel' fk tk k with
-             | COk k' => match project fuel' fe te x with COk x' => go r ((k', x') :: acc) | CErr c => CErr c end
-             | CErr c => CErr c
-             end
-           end) es []
-      | TScalar tc, _, _ => if type_code from =? tc then COk v else CErr 2
-      | _, _, _ => CErr 2
+      end.
+    Fixpoint cut_elems (n : nat) (fe te : ty) (bs : list Z) : cres (list Z * list Z) :=
+      match n with
+      | O => COk ([], bs)
+      | S n' =>
+        match rec fe te bs with
+        | CErr c => CErr c
+        | COk (o1, r) => match cut_elems n' fe te r with COk (o2, r') => COk (o1 ++ o2, r') | CErr c => CErr c end
+        end
+      end.
+    Fixpoint cut_pairs (n : nat) (fk tk fe te : ty) (bs : list Z) : cres (list Z * list Z) :=
+      match n with
+      | O => COk ([], bs)
+      | S n' =>
+        match rec fk tk bs with
+        | CErr c => CErr c
+        | COk (o1, r) =>
+          match rec fe te r with
+          | CErr c => CErr c
+          | COk (o2, r2) => match cut_pairs n' fk tk fe te r2 with COk (o3, r3) => COk (o1 ++ o2 ++ o3, r3) | CErr c => CErr c end
+          end
+        end
+      end.
+  End CStep.
+
+  Definition enc_fields (l : list (Z * tval)) : list Z :=
+    flat_map (fun f => type_of (snd f) :: enc_int 2 (fst f) ++ encode (snd f)) l.
+
+  (* count as read by ReadListBegin/ReadMapBegin (negative = error); a count above the remaining input cannot be
+     completed because every element consumes at least one byte, so the loop is bounded by the input *)
+  Definition cut_count (bs : list Z) : cres (list Z * nat * list Z) :=
+    match take 4 bs with
+    | None => CErr 4
+    | Some (x, r) => let n := dec_int x in
+        if n <? 0 then CErr 4 else if n >? zlen r then CErr 4 else COk (x, Z.to_nat n, r)
+    end.
+
+  Fixpoint cut (fuel : nat) (from to : ty) (bs : list Z) {struct fuel} : cres (list Z * list Z) :=
+    match fuel with
+    | O => CErr 4
+    | S f =>
+      match to with
+      | TStruct b =>
+        match from with
+        | TStruct a =>
+          if pe from to then (if quirk then COk ([], bs) else raw_copy T_STRUCT bs) else
+          match struct_def d a, struct_def d b with
+          | Some ffs, Some tfs =>
+            match cut_fields (cut f) (S (length bs)) ffs tfs bs with
+            | CErr c => CErr c
+            | COk (out, r, w) =>
+              if o_not_check_req o then COk (out ++ [0], r)
+              else match owed (sort_flds tfs) w with
+                   | COk extra => COk (out ++ enc_fields extra ++ [0], r)
+                   | CErr c => CErr c
+                   end
+            end
+          | _, _ => CErr 4
+          end
+        | _ => CErr 2
+        end
+      | TList te | TSet te =>
+        match elem_ty from with
+        | None => CErr 2
+        | Some fe =>
+          if pe fe te then (if type_code from =? type_code to then raw_copy (type_code to) bs else CErr 2) else
+          match bs with
+          | et :: r =>
+            if negb (type_valid_b et) then CErr 4 else
+            match cut_count r with
+            | CErr c => CErr c
+            | COk (x, n, r2) =>
+              match cut_elems (cut f) n fe te r2 with
+              | COk (out, r3) => COk (et :: x ++ out, r3)
+              | CErr c => CErr c
+              end
+            end
+          | [] => CErr 4
+          end
+        end
+      | TMap tk te =>
+        match from with
+        | TMap fk fe =>
+          if pe fe te && pe fk tk then raw_copy T_MAP bs else
+          match bs with
+          | kt :: vt :: r =>
+            if negb (type_valid_b kt) || negb (type_valid_b vt) then CErr 4 else
+            match cut_count r with
+            | CErr c => CErr c
+            | COk (x, n, r2) =>
+              match cut_pairs (cut f) n fk tk fe te r2 with
+              | COk (out, r3) => COk (kt :: vt :: x ++ out, r3)
+              | CErr c => CErr c
+              end
+            end
+          | _ => CErr 4
+          end
+        | _ => CErr 2
+        end
+      | TScalar tc => if type_code from =? tc then raw_copy tc bs else CErr 2
       end
     end.
 End Cut.
+
+(* ---------------- conformance predicates used by the theorems and by the checker ---------------- *)
+Section Conf.
+  Variable d : defs.
+  (* [conf]: the kinds on the wire are the kinds the source descriptor declares wherever the walker relies on the
+     descriptor (list elements, map keys/values, known struct fields); unknown fields are unconstrained *)
+  Fixpoint conf (fuel : nat) (t : ty) (v : tval) {struct fuel} : bool :=
+    match fuel with
+    | O => false
+    | S f =>
+      match t, v with
+      | TScalar c, _ => (type_of v =? c) && is_scalar c
+      | TStruct a, VStruct fs =>
+        match struct_def d a with
+        | Some ffs => forallb (fun p => match find_fld (fst p) ffs with
+                                        | Some ff => negb (type_of (snd p) =? type_code (fld_ty ff)) || conf f (fld_ty ff) (snd p)
+                                        | None => true end) fs
+        | None => false
+        end
+      | TList e, VList et es => (et =? type_code e) && valid_type et && forallb (fun x => (type_of x =? type_code e) && conf f e x) es
+      | TSet e, VSet et es => (et =? type_code e) && valid_type et && forallb (fun x => (type_of x =? type_code e) && conf f e x) es
+      | TMap k e, VMap kt vt es =>
+        (kt =? type_code k) && (vt =? type_code e) && valid_type kt && valid_type vt &&
+        forallb (fun p => (type_of (fst p) =? type_code k) && conf f k (fst p) && (type_of (snd p) =? type_code e) && conf f e (snd p)) es
+      | _, _ => false
+      end
+    end.
+
+  (* [compat]: the two descriptors declare the same kinds wherever both declare something (the domain of the
+     property: the target's field sets are subsets / supersets of the source's, kinds are not changed) *)
+  Fixpoint compat (fuel : nat) (from to : ty) {struct fuel} : bool :=
+    match fuel with
+    | O => true
+    | S f =>
+      match from, to with
+      | TScalar a, TScalar b => a =? b
+      | TStruct a, TStruct b =>
+        match struct_def d a, struct_def d b with
+        | Some ffs, Some tfs => forallb (fun ff => match find_fld (fld_id ff) tfs with
+                                                   | Some tf => compat f (fld_ty ff) (fld_ty tf)
+                                                   | None => true end) ffs
+        | _, _ => false
+        end
+      | TList a, TList b | TSet a, TSet b => compat f a b
+      | TMap ka a, TMap kb b => compat f ka kb && compat f a b
+      | _, _ => false
+      end
+    end.
+
+  (* [full o]: the value conforms completely to the descriptor: no unknown field, declared kinds everywhere, and no
+     field is owed at any STOP under the options (all tracked required fields present; under WriteDefault also the
+     tracked non-required ones) *)
+  Variable o : cut_opts.
+  Definition complete (ffs : list fdesc) (ids : list Z) : bool :=
+    forallb (fun f => mem_id (fld_id f) ids || negb (tracked o f) || (negb (fld_req f =? 1) && negb (o_write_default o))) ffs.
+  Fixpoint full (fuel : nat) (t : ty) (v : tval) {struct fuel} : bool :=
+    match fuel with
+    | O => false
+    | S f =>
+      match t, v with
+      | TScalar c, _ => type_of v =? c
+      | TStruct a, VStruct fs =>
+        match struct_def d a with
+        | Some ffs =>
+          forallb (fun p => match find_fld (fst p) ffs with
+                            | Some ff => (type_of (snd p) =? type_code (fld_ty ff)) && full f (fld_ty ff) (snd p)
+                            | None => false end) fs
+          && (o_not_check_req o || complete ffs (map fst fs))
+        | None => false
+        end
+      | TList e, VList et es => forallb (full f e) es
+      | TSet e, VSet et es => forallb (full f e) es
+      | TMap k e, VMap kt vt es => forallb (fun p => full f k (fst p) && full f e (snd p)) es
+      | _, _ => false
+      end
+    end.
+End Conf.
+
+(* descriptor tables as the IDL parser produces them: field ids are int16, scalar type codes are the seven scalar kinds *)
+Fixpoint ty_valid (t : ty) : bool :=
+  match t with
+  | TScalar c => is_scalar c
+  | TStruct _ => true
+  | TList e | TSet e => ty_valid e
+  | TMap k e => ty_valid k && ty_valid e
+  end.
+Definition defs_okb (d : defs) : bool := forallb (forallb (fun f => in_sb 16 (fld_id f) && ty_valid (fld_ty f))) d.
